@@ -15,6 +15,7 @@ GEN = {
     "single:plain": lambda rng: wc.gen_single(rng, "plain"),
     "large:long": lambda rng: wc.gen_large(rng, "long"),
     "large:manyK": lambda rng: wc.gen_large(rng, "manyK"),
+    "large:verylong": lambda rng: wc.gen_large(rng, "verylong"),
     "large:bigNW": lambda rng: wc.gen_large(rng, "bigNW"),
     "joint:joint": lambda rng: wc.gen_joint(rng, "joint"),
     "joint:general": lambda rng: wc.gen_joint(rng, "general"),
@@ -48,7 +49,7 @@ def plan_e2e(seed, tag, mix, total, shards=None, extra=None, timeout=None, nwcap
     specs = []
     mix = dict(mix)
     tot_w = float(sum(mix.values()))
-    for name, frac in (("large:long", 0.025), ("large:manyK", 0.025), ("large:bigNW", 0.015)):
+    for name, frac in (("large:long", 0.025), ("large:manyK", 0.025), ("large:bigNW", 0.015), ("large:verylong", 0.015)):
         mix.setdefault(name, tot_w * frac)
     for i, n in enumerate(common.split_counts(total, shards)):
         if n == 0:
